@@ -294,6 +294,8 @@ func c15(c *an.Check) {
 			return ""
 		})
 	}
+	// the binary encoding is the generated codec of package hash
+	pbCodecSanity(c, func(rel string) bool { return rel == "hash" })
 	c.Trust("github.com/mr-tron/base58 Encode/Decode are inverse", "protobuf-go-lite MarshalVT/UnmarshalVT round-trip", "bytes.Equal", "crypto/sha256, crypto/sha1, zeebo/blake3 digests")
 }
 
